@@ -70,6 +70,23 @@ pub fn guarded<T>(f: impl FnOnce() -> T) -> Option<T> {
     std::panic::catch_unwind(std::panic::AssertUnwindSafe(f)).ok()
 }
 
+/// Properties say "returns an error", not which: every `err|CODE` in an observation becomes `err` in the
+/// compared part, and the codes are moved behind the ` | ` separator, where they are a fidelity note.
+pub fn demote_codes(line: &str) -> String {
+    let mut main = String::new();
+    let mut codes: Vec<String> = vec![];
+    let mut rest = line;
+    while let Some(i) = rest.find("err|") {
+        main.push_str(&rest[..i + 3]);
+        let after = &rest[i + 4..];
+        let n = after.find(|c: char| !c.is_ascii_alphanumeric()).unwrap_or(after.len());
+        codes.push(after[..n].to_string());
+        rest = &after[n..];
+    }
+    main.push_str(rest);
+    if codes.is_empty() { main } else { format!("{main} | {}", codes.join(",")) }
+}
+
 pub fn silence_panics() {
     if std::env::var("VERIF_SHOW_PANICS").is_ok() {
         return;
